@@ -310,7 +310,8 @@ let proto file =
   let left = ref 0 in
   for p = 0 to 15 do
     match peer_of !g (n_of_int p) with
-    | Some pr -> List.iter (fun (src, l) -> left := !left + List.length l) (inbox_all pr)
+    | Some pr -> List.iter (fun (src, l) -> left := !left + List.length l;
+                              if l <> [] then Printf.printf "LEFTOVER %s->%d: %s\n" (ds src) p (String.concat " | " (List.map (msg_string pr) l))) (inbox_all pr)
     | None -> ()
   done;
   Printf.printf "FRAMES %d LEFT %d\n" !frames !left
